@@ -1190,6 +1190,10 @@ PROPS = {
     'C04': dict(run=run_multi, parts=[fam_dbuf('histories = TLC transition cover / random walks of DecoderBufMC + seeded Go-side histories (B<=52, attacker values) + corpus; every event judged by the DecoderBuf envelope (data_suffix, retention, unread_kept, r_pos, read_out, reset); non-trivial = distinct script with a discard, mid-buffer read position, overlapping copy, rejected sequence, partial block or writer fault'),
                                   fam_dec('Decoder level: the recordings of C06/C18 (TLC walks of Decoder.tla + seeded histories with writer faults and retries); rules C04.output_exact (every writer call is offered exactly the continuation of the reference expansion: each byte once, in order) and C04.flush_complete')],
                 trace_module=None),
-    'C05': fam_dbuf('same recordings as C04, rules C05.* (malformed match/sequence must be rejected, consumed prefix must be expandable, atomicity via the abstraction equation, caller block untouched, no panic); non-trivial = distinct script with a rejected sequence / partial block / discard'),
-    'C17': fam_dbuf('same recordings as C04, rules C17.* (n, k, l, write_n, Off = Len(hist) in every state); non-trivial = distinct script with a discard, partial block, rejected sequence'),
+    'C05': dict(run=run_multi, trace_module=None, parts=[
+        fam_dec('Decoder level: the recordings of C06/C18 incl. long blocks that need several flush-and-retry rounds inside one WriteBlock, malformed last sequences, default-sized configurations; rules C05.reject_seq, atomic, nothing_of_failing, block_untouched, no_panic on every Decoder.WriteBlock'),
+        fam_dbuf('same recordings as C04, rules C05.* (malformed match/sequence must be rejected, consumed prefix must be expandable, atomicity via the abstraction equation, caller block untouched, no panic); non-trivial = distinct script with a rejected sequence / partial block / discard')]),
+    'C17': dict(run=run_multi, trace_module=None, parts=[
+        fam_dec('Decoder level: the recordings of C06/C18; rules C17.write_n (Decoder.Write reports the bytes it appended, also when it writes in pieces), C17.n / k / l of Decoder.WriteBlock summed over its retry rounds'),
+        fam_dbuf('same recordings as C04, rules C17.* (n, k, l, write_n, Off = Len(hist) in every state); non-trivial = distinct script with a discard, partial block, rejected sequence')]),
 }
